@@ -594,6 +594,9 @@ func (o *oracleCtx) checkQueries(step int, qs []Query, ob Obs, img *SImage) {
 	mids := img.MinIDs()
 	for _, q := range qs {
 		o.tick("query")
+		if q.Kind == "header" {
+			continue // judged by the model (coq/Meta.v header_view) and by AccessorFindings
+		}
 		sels := q.Sels
 		if q.Kind == "data" || q.Kind == "meta" {
 			sels = []Selector{{Kind: SID, N: int64(q.ID)}}
